@@ -18,7 +18,10 @@ func run(c *core.Ctx) error {
 		id++
 		progs = append(progs, Spine(id, chain, ex))
 	}
-	fullDepth := c.Pick(2, 3)
+	// quick: all chains to depth 2 with every exit + a sample of depth 3. thorough: additionally EVERY chain of
+	// depth 3 (with two seeded exits each; all exits would be 48 000 programs, > 30 min of TLC on a loaded
+	// machine) and samples of depth 4 and 5
+	fullDepth := 2
 	for d := 1; d <= fullDepth; d++ {
 		for _, ch := range AllChains(d) {
 			for _, ex := range exitsFor(ch) {
@@ -26,22 +29,29 @@ func run(c *core.Ctx) error {
 			}
 		}
 	}
-	// one level deeper: seeded sample
-	deeper := AllChains(fullDepth + 1)
-	nDeeper := c.Pick(600, 12000)
-	for _, i := range c.SampleIdx(len(deeper), nDeeper) {
-		exs := exitsFor(deeper[i])
-		add(deeper[i], exs[c.Rand.Intn(len(exs))])
-	}
+	d3 := AllChains(3)
 	if c.Thorough() {
-		d5 := 3000
-		for k := 0; k < d5; k++ {
-			ch := make([]string, fullDepth+2)
-			for j := range ch {
-				ch[j] = Positions[c.Rand.Intn(len(Positions))]
-			}
+		fullDepth = 3
+		for _, ch := range d3 {
 			exs := exitsFor(ch)
-			add(ch, exs[c.Rand.Intn(len(exs))])
+			k := c.Rand.Intn(len(exs))
+			add(ch, exs[k])
+			add(ch, exs[(k+1+c.Rand.Intn(len(exs)-1))%len(exs)])
+		}
+		for _, n := range []int{4, 5} {
+			for k := 0; k < map[int]int{4: 5000, 5: 1500}[n]; k++ {
+				ch := make([]string, n)
+				for j := range ch {
+					ch[j] = Positions[c.Rand.Intn(len(Positions))]
+				}
+				exs := exitsFor(ch)
+				add(ch, exs[c.Rand.Intn(len(exs))])
+			}
+		}
+	} else {
+		for _, i := range c.SampleIdx(len(d3), 600) {
+			exs := exitsFor(d3[i])
+			add(d3[i], exs[c.Rand.Intn(len(exs))])
 		}
 	}
 	nSpine := len(progs)
